@@ -1,14 +1,15 @@
 (* Line protocol driver for the C20 span-tree model (coq/theories/Front/Spans.v).
 
    T <id> <tree>      sets the current tree; reply `T <id> wf=<0|1> plain=<0|1> noforce=<0|1>`
-     <tree> ::= ( <start> <end> <kind> <lab> <nbinders> (<name> <start> <end>)* <tree>* )
+     <tree> ::= ( <start> <end> <kind> <lab> <nbinders> (<name> <sort> <start> <end>)* <tree>* )
    Q <pos> <ty> sg=<n,n,...> fx=<n,n,...>
      <pos>   cursor position (BytePos), <ty> index of the type text the implementation reported
      (0 = none), sg = names the implementation suggested, fx = names admitted besides scope_at
      (environment globals, fields of the record being projected / matched).
      reply  `opaque`                                           search entered an unmodelled node
             `r=N`                                              complete_at = Err(())
-            `r=E e=<s>-<e> ty=ok sc=<ok|bad:n,n>`              no match, last enclosing span
+            `r=E e=<s>-<e> ty=ok sc=<ok|bad:n/c,n/c>`          no match, last enclosing span; n = name, c =
+                                                               sort of its nearest binder + b(efore)/a(fter) or `unbound`
             `r=F m=<variant>:<s>-<e> e=<s>-<e> ty=<ok|bad:<expected>:<observed>> sc=<ok|bad:..>`
    Everything decided here is decided by the extracted functions; the driver only converts
    numbers and prints. *)
@@ -32,7 +33,7 @@ let parse_tree (toks : string array) (i : int ref) : node =
     if next () <> "(" then failwith "expected (";
     let s = int () in let e = int () in let k = int () in let l = int () in
     let nb = int () in
-    let bs = List.init nb (fun _ -> let n = int () in let bs = int () in let be = int () in (nat_of_int n, mk_span bs be)) in
+    let bs = List.init nb (fun _ -> let n = int () in let k = int () in let bs = int () in let be = int () in { bname = nat_of_int n; bkind = nat_of_int k; bscope = mk_span bs be }) in
     let cs = ref [] in
     while toks.(!i) <> ")" do cs := tree () :: !cs done;
     ignore (next ());
@@ -78,7 +79,11 @@ let () =
                      (match r.hit with Some h -> Printf.sprintf "bad:%d:%d" (int_of_nat h.hlab) (int_of_nat ty) | None -> "bad") in
                  let sc = match out_of_scope t p fx sg with
                    | [] -> "ok"
-                   | l -> "bad:" ^ String.concat "," (List.map (fun n -> string_of_int (int_of_nat n)) l) in
+                   | l -> "bad:" ^ String.concat "," (List.map (fun n ->
+                       let cls = match nearest_binder t p n with
+                         | None -> "unbound"
+                         | Some (k, before) -> Printf.sprintf "%d%s" (int_of_nat k) (if before then "b" else "a") in
+                       Printf.sprintf "%d/%s" (int_of_nat n) cls) l) in
                  (match r.st, r.hit with
                   | SFound, Some h ->
                       Printf.printf "r=F m=%d:%s e=%s ty=%s sc=%s\n" (int_of_nat (variant h.hkind)) (show_span h.hsp) e tyv sc
